@@ -15,13 +15,13 @@ def _cpair_as_pair(f):
     # cpair <kind> <limit> <passes> <cfg> <items> <chosen> <cancel> <eof>: tags/chosen as comparable tokens
     tags = ",".join(i[1:] or "_" for i in f[5].split(",") if i.startswith("e")) or "-"
     chosen = "-" if f[6] == "-" else ",".join(t[1:] or "_" for t in f[6].split(","))
-    return [f[0], "content-" + f[1], f[2], f[3], tags, chosen] + f[7:]
+    return [f[0], ("mw-" if f[0] == "mpair" else "content-") + f[1], f[2], f[3], tags, chosen] + f[7:]
 
 
 def key_fn(case, obs, verdict):
     # pair <kind> <limit> <passes> <tags> <chosen> <cancel>
     f = case.split(" ")
-    if f[0] == "cpair" and len(f) >= 9:
+    if f[0] in ("cpair", "mpair") and len(f) >= 9:
         f = _cpair_as_pair(f)
     o = obs.split(" ")
     kind = f[1]
@@ -53,7 +53,7 @@ def run(ctx):
         rule=("non-trivial: a chosencases filter is set or a bound (limit>0 or passes>0) exists, every content cell; "
               "distinct = distinct case lines"),
         key_fn=key_fn, what_fn=what_fn,
-        bridge_files=["Properties/C14_content.v"],
+        bridge_files=["Properties/C14_content.v", "Properties/C14_mw.v"],
         trusted=[
             "extraction: ExtrOcamlBasic only; OCaml driver ocaml/C14/main.ml + ocaml/common/conv.ml",
             "correspondence harness harness/cmd/hC14 + harness/internal/a08 (both real providers, preload off and on, built by "
